@@ -42,7 +42,11 @@ pub fn eval(cfg: &Cfg, input: &[u8], st: &mut Stats) -> Result<(), String> {
     if r.is_some() && s.max_live > 6 {
         st.count("nontrivial");
     }
-    // the whole encode call: planner work of all planner runs it makes (cumulative counters)
+    // the whole encode call: planner work of all planner runs it makes (cumulative counters);
+    // inputs shorter than 12 bytes cannot hold enough segments for repeated planning to matter
+    if n < 12 {
+        return Ok(());
+    }
     let (runs0, steps0) = total_plan_work();
     let _ = guarded(|| cfg.encode(input)).map_err(|p| format!("encode: {}", p))?;
     let (runs1, steps1) = total_plan_work();
